@@ -1,4 +1,5 @@
 import NpsVerif.Proofs.C01
+import NpsVerif.Proofs.C01Maps
 /-!
 # Property C01 — a RaggedArray holds exactly the rows it was built from
 
@@ -62,5 +63,75 @@ theorem C01_astype {α β} (c : α → β) (rows : List (List α)) :
 example : (Shape.ofLens [0, 2, 0, 0, 3, 0]).starts = [0, 0, 2, 2, 2, 5] := by decide
 example : (RA.ofRows [[], [1, 2], [], [3]]).rows = [[], [1, 2], [], [3]] := by decide
 example : RA.ofFlat [1, 2, 3] [1, 1] = none := by decide
+
+/-! ## index maps: `ravel_multi_index`, `unravel_multi_index`, `index_array`, numpy round trip -/
+
+/-- (row, col) -> flat -> (row, col): for every placement of empty rows (the `side="right"` choice is
+what makes a run of equal starts resolve to its last, non-empty, row) -/
+theorem C01_unravel_ravel (ls : List Nat) (r c : Nat) (hr : r < ls.length) (hc : c < ls[r]) :
+    (Shape.ofLens ls).ravelIdx r c = some ((ls.take r).sum + c) ∧
+    (Shape.ofLens ls).unravelIdx ((ls.take r).sum + c) = some (r, c) :=
+  ⟨ofLens_ravelIdx ls r c hr, ofLens_unravelIdx ls r c hr hc⟩
+
+/-- flat -> (row, col) -> flat, and the column is inside the row -/
+theorem C01_ravel_unravel (ls : List Nat) (p : Nat) (hp : p < ls.sum) :
+    ∃ r c, (Shape.ofLens ls).unravelIdx p = some (r, c) ∧ (∃ h : r < ls.length, c < ls[r]) ∧
+      (Shape.ofLens ls).ravelIdx r c = some p := by
+  obtain ⟨r, c, hr, hc, he⟩ := exists_row_col ls p hp
+  refine ⟨r, c, ?_, ⟨hr, hc⟩, ?_⟩
+  · rw [he]; exact ofLens_unravelIdx ls r c hr hc
+  · rw [he]; exact ofLens_ravelIdx ls r c hr
+
+/-- `index_array()` lists the row of every flat position -/
+theorem C01_index_array (ls : List Nat) :
+    (Shape.ofLens ls).indexArray = ((List.range ls.length).zip ls).flatMap (fun rl => List.replicate rl.2 rl.1) := by
+  rw [ofLens_indexArray, List.range_eq_range', flatMap_range'_zip]
+
+/-- rectangular numpy array -> RaggedArray -> numpy array is the identity -/
+theorem C01_numpy_roundtrip {α} (m : List (List α)) (w : Nat) (h : ∀ r ∈ m, r.length = w) :
+    (RA.fromNumpy m w).bind RA.toNumpy = some m := by
+  have hsz : (Shape.ofLens (List.replicate m.length w)).size = m.flatten.length := by
+    rw [ofLens_size, List.sum_replicate_nat, flatten_length_of_const m w h]
+  simp only [RA.fromNumpy, RA.ofFlat, hsz, if_true, Option.bind_some, RA.toNumpy, ofLens_lengths,
+    ofLens_nRows, List.length_replicate]
+  cases m with
+  | nil => simp
+  | cons r rs =>
+    simp only [List.length_cons, List.replicate_succ]
+    rw [if_pos (by simp [List.all_replicate])]
+    have := chunks_flatten (r :: rs) w h
+    simpa using this
+
+/-- `to_numpy_array` accepts exactly the arrays whose rows all have the length of the first row -/
+theorem C01_to_numpy_accepts {α} (rows : List (List α)) :
+    (RA.ofRows rows).toNumpy = if rows.all (fun r => r.length == (rows.head?.map List.length).getD 0) then some rows else none := by
+  cases rows with
+  | nil => simp [RA.toNumpy, RA.ofRows, ofLens_lengths]
+  | cons r rs =>
+    simp only [RA.toNumpy, RA.ofRows, ofLens_lengths, ofLens_nRows, List.map_cons, List.length_cons,
+      List.length_map, List.head?_cons, Option.map_some, Option.getD_some, List.all_cons, beq_self_eq_true,
+      Bool.true_and, List.all_map, Function.comp_def]
+    split
+    · rename_i hall
+      have hall' : ∀ x ∈ r :: rs, x.length = r.length := by
+        intro x hx
+        rcases List.mem_cons.mp hx with rfl | hx
+        · rfl
+        · simpa using (List.all_eq_true.mp hall) x hx
+      have := chunks_flatten (r :: rs) r.length hall'
+      simpa using this
+    · rfl
+
+/- non-vacuity of the index maps: empty rows at the start, middle and end -/
+example : (Shape.ofLens [0, 2, 0, 0, 3, 0]).ravelIdx 4 1 = some 3 := by decide
+example : (Shape.ofLens [0, 2, 0, 0, 3, 0]).unravelIdx 3 = some (4, 1) := by decide
+example : (List.range 5).map (Shape.ofLens [0, 2, 0, 0, 3, 0]).unravelIdx
+    = [some (1, 0), some (1, 1), some (4, 0), some (4, 1), some (4, 2)] := by decide
+example : (Shape.ofLens [0, 2, 0, 0, 3, 0]).indexArray = [1, 1, 4, 4, 4] := by decide
+example : (Shape.ofLens []).indexArray = [] := by decide
+example : (RA.fromNumpy [[1, 2], [3, 4], [5, 6]] 2).bind RA.toNumpy = some [[1, 2], [3, 4], [5, 6]] := by decide
+example : (RA.fromNumpy [([] : List Nat), [], []] 0).bind RA.toNumpy = some [[], [], []] := by decide
+example : (RA.ofRows [[1, 2], [], [3, 4]]).toNumpy = none := by decide
+example : (RA.ofRows [([] : List Nat), []]).toNumpy = some [[], []] := by decide
 
 end Props.C01
